@@ -714,7 +714,7 @@ func c36Enforcement(r *vlib.Run, env *c36Env, item int) {
 			r.Outcome(fmt.Sprintf("E-ok/allowed=%d-of-%d", nallowed, len(sched)))
 
 			if len(sched) == 2*x.b+2 && sched[0] == 0 && sched[len(sched)-1] == 4 {
-				r.Sample(map[string]any{"rule": fmt.Sprintf("%d/%s", x.b, x.d), "schedule_grid_index": sched, "allowed": allowedAt})
+				r.Sample(map[string]any{"rule": fmt.Sprintf("%d/%s", x.b, x.d), "schedule_grid_index": append([]int{}, sched...), "allowed": allowedAt})
 			}
 		}
 
